@@ -78,7 +78,14 @@ def _selector_nodes(ev, par, regime):
     out = []
     if ref is None:
         return out
+    seen = set()
     for node, op, L, R, r in ev.cmp_log:
+        # one comparison evaluated more than once on the same values (an argument of a call is evaluated when the call is recorded and when it is
+        # applied: `np.place(pv, pvel, rat >= c)`) is one comparison
+        key = (id(node), type(op), repr(L), repr(R))
+        if key in seen:
+            continue
+        seen.add(key)
         o = type(op)
         if not (L.depends_on("beta") or L.depends_on("w")):
             L, R = R, L
@@ -841,6 +848,8 @@ def r7_subspace_typing(ctx):
              {"n": "K"}, 60),
             (BASEF, "_BaseODE._make_rb_el", dict(base_attrs, rb=I("N", "N/rb")), {"self.n": "N", "self.ksize": "K"}, 8),
             (BASEF, "_BaseODE._chk_diag_part", {"m": A("N"), "b": A("N"), "k": A("N"), "self.nonrf": I("N", "K"), "self.rf": I("N", "N/rf")}, {}, 6),
+            # the complex path: one entry per eigenvalue (space L); near-zero eigenvalues overridden through a mask / index vector
+            (SOLVEUNC, "SolveUnc._get_complex_su_coefs", {"lam": A("L"), "h": S}, {}, 6),
     ):
         fn = ctx.src.func(rel, qual)
         bad = []
@@ -848,7 +857,7 @@ def r7_subspace_typing(ctx):
         def report(kind, node, detail, bad=bad):
             bad.append((kind, node, detail))
 
-        inl = module_funcs(ctx, rel, cls="_BaseODE" if rel == BASEF else None, exclude=(qual.split(".")[-1], "_ensure_index_type"))
+        inl = module_funcs(ctx, rel, cls=qual.split(".")[0] if "." in qual else None, exclude=(qual.split(".")[-1], "_ensure_index_type"))
         inl = {k_: v_ for k_, v_ in inl.items() if v_ is not fn and k_ != "self._ensure_index_type"}
         T = MaskTyper(params, sizes, report, passthrough={"self._ensure_index_type"}, cond={"self.rfsize": True} if qual.endswith("_chk_diag_part") else None,
                       inline=inl)
@@ -880,6 +889,10 @@ def r7_subspace_typing(ctx):
                     ctx.error(label + ": the published value was not typed", fn, repr(t))          # unknown, not wrong
                 else:
                     ctx.check(ok, label, fn, repr(t))
+        for node, why in T.unsure:
+            # np.place / np.putmask / np.copyto(where=) / np.put differ in how they pair values with selected entries; the value-level rules (R1, R1b) read
+            # them as `arr[mask] = vals`, which is only right when the operand spaces fit - so a call that could not be typed is not decided
+            ctx.error(f"{qual}: the masked store `{ast.unparse(node)[:80]}` could not be typed (its meaning depends on the spaces of its operands)", node, why)
         seen = set()
         for kind, node, detail in bad:
             key = f"C01-R7|{qual}|{kind}|{ast.unparse(node)[:60]}"
@@ -1095,7 +1108,7 @@ def r9_solveexp2(ctx):
             return F.sym("Astate")
         return NotImplemented
 
-    S0 = Sem01(ctx, init, call=call0, truth={"h": True}, cmp=_size_cmp("ksize"), inline=inl0,
+    S0 = Sem01(ctx, init, call=call0, truth={"h": True}, cmp=_size_cmp("ksize"), inline=inl0, ndims={"E": 2, "P": 2, "Q": 2, "Astate": 2},
                env={"h": F.sym("h"), "order": F.sym("order"), "self.ksize": F.sym("ksize")})
     want = {"E_vv": ("v", "v"), "E_vd": ("v", "d"), "E_dv": ("d", "v"), "E_dd": ("d", "d")}
     half = {"v": S0.ev._index_value(ast.parse("x[:ksize]", mode="eval").body.slice), "d": S0.ev._index_value(ast.parse("x[ksize:]", mode="eval").body.slice)}
